@@ -1,7 +1,7 @@
 #!/usr/bin/env python3
 """Run the quick checks against every seeded change in /verif/seeded (each applied to its own scratch worktree of /repo
 under /tmp, removed afterwards) and record which check catches which change in /verif/seeded/RESULTS.json.
-usage: tools/run_seeded.py [name ...]   (default: all)   env: SEED_PAR (parallel worktrees, default 4)"""
+usage: tools/run_seeded.py [name ...]   (default: all)   env: SEED_PAR (parallel worktrees, default 3), SEED_CHECKS (comma list overriding the per-property check order)"""
 import json, os, subprocess, sys, shutil, concurrent.futures as cf, re, time
 V = "/verif"
 # which checks to run for a change seeded against property X (the property itself + closely related ones)
@@ -20,7 +20,7 @@ def run_one(name):
         if r.returncode != 0:
             res["error"] = "patch does not apply: " + r.stderr[:300]
             return res
-        for chk in ALSO.get(prop, [prop]):
+        for chk in (os.environ["SEED_CHECKS"].split(",") if os.environ.get("SEED_CHECKS") else ALSO.get(prop, [prop])):
             env = dict(os.environ, VERIF_REPO=wt, VERIF_WORK="/tmp/seedwt/work-%s" % name, VERIF_EVIDENCE_DIR="/tmp/seedwt/ev-%s" % name,
                        VERIF_JOBS=os.environ.get("SEED_JOBS", "5"))
             t0 = time.time()
